@@ -89,7 +89,7 @@ func scriptFor(h *hist, f fault) func(packets [][]byte) []action {
 	}
 }
 
-var faultKinds = []string{"close", "rst", "short", "badseq", "err", "eof", "cancel", "handler", "mapper-err", "mapper-more", "mapper-less", "unsupported", "invalid", "badcell"}
+var faultKinds = []string{"close", "rst", "short", "badseq", "err", "eof", "cancel", "handler", "mapper-err", "mapper-more", "mapper-less", "unsupported", "invalid", "badcell", "badtm"}
 
 // addBadCell appends to the history a table with an ENUM column of pack size 3..8 (its length is computable, so
 // Rows() splits the event, but CellBytes rejects the value: a value-level decode failure) and inserts, at a random
@@ -511,6 +511,7 @@ func extraC06(col *Collector, r *RNG, tier string) {
 		ntx := len(strings.Split(f0["spec"], "&"))
 		kind := faultKinds[i%len(faultKinds)]
 		variant := ""
+		var forced *fault
 		if kind == "badcell" {
 			variant = addBadCell(r, h)
 			if ans, err = theDriver.Ask(h.line(posStr(firstFile, 4))); err != nil {
@@ -519,7 +520,31 @@ func extraC06(col *Collector, r *RNG, tier string) {
 			f0 = fields(ans)
 			npk = len(splitPackets(f0["packets"]))
 		}
+		if kind == "badtm" {
+			// a decode failure the table cache could hide: the truncated TABLE_MAP of an id that is already cached
+			kind = "unsupported"
+			for try := 0; try < 20; try++ {
+				if f2, ok := truncatedKnownTableMap(r, h); ok {
+					variant = "known-tablemap-truncated"
+					forced = &f2
+					break
+				}
+				h = smallHistory(r, allCfgs[i%len(allCfgs)])
+				h.crcmix, h.noise = false, nil
+				if ans, err = theDriver.Ask(h.line(posStr(firstFile, 4))); err != nil {
+					break
+				}
+				f0 = fields(ans)
+				npk = len(splitPackets(f0["packets"]))
+				ntx = len(strings.Split(f0["spec"], "&"))
+			}
+		}
 		f, opts := randFault(r, h, kind, npk, ntx)
+		if forced != nil {
+			f = *forced
+			opts = defaultOpts()
+			opts.script = scriptFor(h, f)
+		}
 		late := kind == "err" && i%2 == 0 || causeIsTransport(kind) && i%3 == 0
 		opts.cancelLate = late
 		if i%4 == 1 || (kind == "err" || causeIsTransport(kind) || kind == "eof") && r.Bool() {
@@ -530,6 +555,9 @@ func extraC06(col *Collector, r *RNG, tier string) {
 		ok, note, key := true, "", ""
 		errTextMismatch := ""
 		desc := f.String()
+		if forced != nil {
+			desc += "/" + variant
+		}
 		if late {
 			desc += "+cancel-after-return"
 		}
@@ -978,4 +1006,46 @@ func oddFileName(r *RNG, k int) string {
 		return string(r.Bytes(r.Range(1, 40)))
 	}
 	return base + "." + randName(r, 3)
+}
+
+// truncatedKnownTableMap builds a fault for "a TABLE_MAP of an id the attempt already knows, well framed but cut inside
+// its body, sent after the original": returns ok=false when the history has no TABLE_MAP or the model does not
+// predict a clean error for any of the tried cuts.
+func truncatedKnownTableMap(r *RNG, h *hist) (fault, bool) {
+	ans, err := theDriver.Ask(h.line(posStr(firstFile, 4)))
+	if err != nil {
+		return fault{}, false
+	}
+	pks := splitPackets(fields(ans)["packets"])
+	var tms []int
+	for i, pk := range pks {
+		if len(pk) > 19+12 && pk[4] == 19 {
+			tms = append(tms, i)
+		}
+	}
+	if len(tms) == 0 {
+		return fault{}, false
+	}
+	crc := 0
+	if h.cfg[0] == '1' && !h.crcmix {
+		crc = 4
+	}
+	for try := 0; try < 12; try++ {
+		i := tms[r.Intn(len(tms))]
+		src := pks[i]
+		if len(src)-19-8-crc <= 0 {
+			continue
+		}
+		keep := 19 + 8 + r.Intn(len(src)-19-8-crc)
+		cand := append(append([]byte(nil), src[:keep]...), make([]byte, crc)...)
+		l := len(cand)
+		cand[9], cand[10], cand[11], cand[12] = byte(l), byte(l>>8), byte(l>>16), byte(l>>24)
+		at := i + 1 + r.Intn(len(pks)-i)
+		if a2, err := theDriver.Ask(h.line(posStr(firstFile, 4), fmt.Sprintf("inject=%d:%s", at, hx(cand)))); err == nil {
+			if strings.HasPrefix(fields(a2)["model"], "err@") {
+				return fault{kind: "unsupported", at: at, pace: r.Pickstr("ahead", "lockstep"), extra: cand}, true
+			}
+		}
+	}
+	return fault{}, false
 }
